@@ -148,6 +148,27 @@ theorem Balanced.permCh {D : List (Obs L F K)} {R : Nat} (hb : Balanced D R) (σ
   rw [cell_permCh, List.length_map]
   exact hb.2 c hc f hf
 
+theorem kern_congr_bounded (P : Nat) {N N' : Nat → Nat → K}
+    (h : ∀ k l, k < P → l < P → N k l = N' k l) (u v : Nat → K) :
+    kern P N u v = kern P N' u v := by
+  unfold kern
+  apply sumR_congr; intro l hl
+  congr 1
+  apply sumR_congr; intro k hk
+  rw [h k l hk hl]
+
+theorem perm_range_lt {P : Nat} {σ : Nat → Nat}
+    (hσ : ((List.range P).map σ).Perm (List.range P)) {k : Nat} (hk : k < P) : σ k < P := by
+  have : σ k ∈ (List.range P).map σ := List.mem_map.mpr ⟨k, List.mem_range.mpr hk, rfl⟩
+  exact List.mem_range.mp (hσ.mem_iff.mp this)
+
+theorem foldMean_permCh (T : (Nat → K) → (Nat → K)) (σ : Nat → Nat)
+    (hTσ : ∀ x : Nat → K, T (fun k => x (σ k)) = fun k => T x (σ k))
+    (D : List (Obs L F K)) (c : L) (f : F) :
+    foldMean T (permCh σ D) c f = fun k => foldMean T D c f (σ k) := by
+  unfold foldMean
+  rw [cell_permCh, meanVec_comp, hTσ]
+
 /-- generic channel-permutation invariance: the transform commutes with the permutation and
     the kernel `κ'` on permuted patterns equals `κ` on the original ones -/
 theorem lofoAlgo_permCh (T : (Nat → K) → (Nat → K)) (κ κ' : (Nat → K) → (Nat → K) → K) (P : Nat)
